@@ -118,7 +118,7 @@ class Explorer:
             if r[0] == "bin" and r[1] in CMP_BINOPS:
                 return ("cmp", CMP_BINOPS[r[1]], _origin_key(b, r[2], self.view), _origin_key(b, r[3], self.view))
             if r[0] == "discr":
-                return ("discr", self._place_key(r[1]))
+                return ("discr", self._place_key(r[1]) + "#" + self._place_ty(r[1]))
             if r[0] == "un" and r[1] == "Not" and r[2][0] in ("copy", "move") and not r[2][1]["p"]:
                 inner = self._describe_local(r[2][1]["l"], depth + 1)
                 return ("not", inner)
@@ -129,6 +129,18 @@ class Explorer:
             if r[0] == "cfd":
                 return ("place", self._place_key(r[1]))
         return ("local", l if l is not None else str(payload.get("sp")))
+
+    def _place_ty(self, p):
+        """head of the type of a place (the enum being matched), to keep `discr` keys of a
+        Result and of its Option payload apart"""
+        ty = self.b.locals[p["l"]]["ty"]
+        for pr in p["p"]:
+            if pr[0] == "field" and len(pr) > 3:
+                ty = pr[3]
+            elif pr[0] == "deref":
+                ty = ty.lstrip("&").replace("mut ", "", 1) if ty.startswith("&") else ty
+        ty = ty.lstrip("&").replace("mut ", "", 1) if ty.startswith("&") else ty
+        return ty.split("<")[0].split("::")[-1]
 
     def _place_key(self, p):
         """a place described by the provenance of its root local plus its own projections"""
@@ -184,6 +196,7 @@ class Explorer:
                     ev = ev + (("call", t["f"].get("name") or "indirect", t, bi),)
                 env.pop(t["d"]["l"], None)
                 env.pop(("v", t["d"]["l"]), None)
+                self._kill(env, t["d"]["l"])
                 if t["t"] is None:
                     self.paths.append(Path(dec, ev, ("diverge", t["f"].get("name")), blocks, False))
                 else:
@@ -213,33 +226,66 @@ class Explorer:
                 key = self.cond_key(d)
                 if is_noise(t["x"]):
                     key = ("noise",) + key
-                prev = [val for kk, val in dec if kk == key]
+                ident = self._ident(d)
                 vals = [val for val, _ in t["v"]]
+                prior = env.get(("c", ident))
                 for val, tb in targets:
                     # unreachable arms
                     if b.blocks[tb]["t"]["k"] == "unreachable" and not b.blocks[tb]["s"]:
                         continue
-                    if prev:
-                        pv = prev[-1]
-                        if val == "otherwise":
-                            if pv != "otherwise" and pv in vals:
+                    if prior is not None:
+                        if prior[0] == "eq":
+                            if val == "otherwise":
+                                if prior[1] in vals:
+                                    continue
+                            elif val != prior[1]:
                                 continue
-                            if isinstance(pv, tuple):
-                                pass
                         else:
-                            if pv != val and not (pv == "otherwise"):
+                            if val != "otherwise" and val in prior[1]:
                                 continue
-                            if pv == "otherwise":
-                                continue
+                    if val == "otherwise":
+                        know = ("ne", frozenset(vals) | (prior[1] if prior is not None and prior[0] == "ne" else frozenset()))
+                        if prior is not None and prior[0] == "eq":
+                            know = prior
+                    else:
+                        know = ("eq", val)
                     dval = val
                     if val == "otherwise" and len(vals) == 1 and self._is_boolish(d):
                         dval = 1 - vals[0] if vals[0] in (0, 1) else "otherwise"
-                    stack.append((tb, env, dec + ((key, dval),), ev, visits, blocks))
+                        know = ("eq", dval)
+                    env2 = dict(env)
+                    env2[("c", ident)] = know
+                    stack.append((tb, env2, dec + ((key, dval),), ev, visits, blocks))
             elif k in ("unreachable", "resume", "terminate", "coroutine_drop"):
                 self.paths.append(Path(dec, ev, (k,), blocks, False))
             else:
                 self.paths.append(Path(dec, ev, ("?", k), blocks, False))
         return self.paths
+
+    def _ident(self, d):
+        """identity of the value tested by a switch: the place it ultimately reads (through
+        single-definition copies / discriminant reads), so that re-testing the same value on one
+        path is consistent while two different values with the same description are not conflated"""
+        b = self.b
+        p = d[1]
+        for _ in range(8):
+            if p["p"]:
+                return (p["l"], place_str(p))
+            ds = b.defs().get(p["l"], [])
+            if len(ds) != 1 or ds[0][2] != "assign":
+                return (p["l"], place_str(p))
+            r = ds[0][3]["r"]
+            if r[0] == "discr":
+                return (r[1]["l"], "discr " + place_str(r[1]))
+            if r[0] == "use" and r[1][0] in ("copy", "move"):
+                p = r[1][1]
+                continue
+            return (p["l"], place_str(p))
+        return (p["l"], place_str(p))
+
+    def _kill(self, env, l):
+        for k in [k for k in env if isinstance(k, tuple) and k and k[0] == "c" and k[1][0] == l]:
+            del env[k]
 
     def _is_boolish(self, d):
         if d[0] == "const":
@@ -254,6 +300,7 @@ class Explorer:
             val = None
             env.pop(("v", l), None)
             env[("d", l)] = r
+            self._kill(env, l)
             if r[0] == "use":
                 o = r[1]
                 if o[0] == "const":
